@@ -22,7 +22,10 @@ Inductive c8case :=
           (ntbl : list (bytes * Z)) (itbl : list (bytes * bytes))   (* known hash values: nonce and ID pre-images *)
           (observed : verdict)
 (* a complete opening between two real clients *)
-| COpen (ctxP ctxR : octx) (p : proposal) (a : accept) (oP oR : obs).
+| COpen (ctxP ctxR : octx) (p : proposal)
+        (a : accept)          (* the accept message as observed on the bus *)
+        (rshare : bytes)      (* the nonce share the responder chose (client.WithNonce) *)
+        (oP oR : obs).
 
 Definition outcome_eqb (a b : outcome) : bool :=
   match a, b with Dropped, Dropped | HandlerCalled, HandlerCalled | Panic, Panic => true | _, _ => false end.
@@ -68,10 +71,14 @@ Definition good (c : c8case) : bool :=
       (* the hashes only matter for "channel already exists": the harness lists the hash values it
          knows (pre-images of the channels opened so far), every other input hashes to a fresh value *)
       verdict_eqb (accept_verdict (tbl_get 0%Z ntbl) (tbl_get [] itbl) ctx p a idx) v
-  | COpen ctxP ctxR p a oP oR =>
+  | COpen ctxP ctxR p a rshare oP oR =>
       let hn := fun _ : bytes => p_nonce (ob_params oP) in
       let hid := fun _ : bytes => ob_id oP in
       valid_acc p a
+      (* the observed accept carries the responder's share; the observed pre-image (hashed in Go to
+         the observed nonce) is the proposer's share followed by it *)
+      && bytes_eqb (acc_nonce a) rshare
+      && bytes_eqb (ob_npre oP) (nonce_preimage (pb_nonce (base p)) rshare)
       && match complete_cpp hn hid (fun _ => 0) rs repaired ctxP p a 0,
                complete_cpp hn hid (fun _ => 0) rs repaired ctxR p a 1 with
          | COk sP, COk sR => check_side hn sP p oP && check_side hn sR p oR
